@@ -230,6 +230,10 @@ var situations = []*situation{
 		applies: func(*tran, *kind) bool { return true }},
 	{id: "h-dialstall", scenario: "close-stalled-dial", roles: []string{"D"}, variants: stallVariants,
 		applies: func(t *tran, _ *kind) bool { return t.family != "inproc" }},
+	// the accept loop is busy (parked in the Attaching hook of one pipe) while a second peer has
+	// completed the transport level handshake and waits to be accepted
+	{id: "i-pending", scenario: "close-pending-accept", roles: []string{"L"}, variants: noVariant,
+		applies: func(_ *tran, k *kind) bool { return k.name != "pair" && k.name != "xpair" && k.name != "pair1" && k.name != "xpair1" }},
 }
 
 func situationByID(id string) *situation {
